@@ -13,13 +13,13 @@ CHUNK = 8
 RULE = ('Each case builds an input and a transformed copy with the real ska and compares the two `nk --full-info` tables '
         '(no model involved).  Transformations, each alone and all combined: reverse-complement a random non-empty subset of '
         'records (two-strand mode only), permute records, random case mask, re-wrap sequence lines at 1..70 columns, gzip, '
-        'permute the sample files on the command line (columns must be permuted accordingly; also with 20..160 samples and --threads 2..16, the recursive parallel build).  Non-trivial: the base build '
+        'permute the sample files on the command line (columns must be permuted accordingly; also with 20..160 samples and --threads 2..16, the recursive parallel build).  The same for read input (1..4 read-pair samples with --min-count 1..3, all quality rules): reads reverse-complemented together with their quality strings, permuted inside their file, case, gzip, sample lines permuted.  Non-trivial: the base build '
         'has at least one k-mer and the transformation changed the file bytes or argument order; distinct = distinct '
         '(k, mode, input, transformation).')
 ASSUMPTIONS = ['both builds are runs of the same binary; equality of the decoded tables is the oracle',
                'the input generators are those of C01 (record lengths around k, N runs, repeats, palindromes)']
 TRANSFORMS = ['rc', 'perm', 'case', 'wrap', 'gzip', 'sampleperm', 'all']
-REQUIRED = {t: ['tr:' + x for x in TRANSFORMS] + ['many_sample_cases'] for t in ('quick', 'thorough')}
+REQUIRED = {t: ['tr:' + x for x in TRANSFORMS] + ['many_sample_cases', 'fastq_cases'] for t in ('quick', 'thorough')}
 
 
 def builds(tier):
@@ -47,8 +47,14 @@ def plan(tier, seed, rng, scale):
     for i in range(int((12 if tier == 'quick' else 120) * scale)):
         descs.append({'k': rng.choice([9, 15, 31, 33]), 'rc': True, 'tr': 'sampleperm', 'kind': 'many', 'seed': rng.getrandbits(32),
                       'threads': rng.choice([2, 4, 8, 16])})
+    for i in range(int((600 if tier == 'quick' else 6000) * scale)):
+        rcmode = rng.random() < 0.7
+        tr = rng.choice([t for t in TRANSFORMS if t != 'wrap'])
+        if tr == 'rc' and not rcmode:
+            tr = 'all'
+        descs.append({'k': rng.choice([7, 9, 15, 21, 31, 33, 41]), 'rc': rcmode, 'tr': tr, 'kind': 'fastq', 'seed': rng.getrandbits(32)})
     for i, d in enumerate(descs):
-        d['chk'] = (i % 9 == 0) and d['kind'] != 'many'
+        d['chk'] = (i % 9 == 0) and d['kind'] not in ('many', 'fastq')
     return descs
 
 
@@ -86,7 +92,103 @@ def transform(rng, samples, tr, rcmode):
     return out, wrap, gz, perm
 
 
+def run_fastq(desc, ctx):
+    """The same invariances for read input: 1..4 read-pair samples over one genome, built with --min-count / --qual-filter /
+    --min-qual, against a copy in which reads are reverse-complemented (qualities reversed with them), records permuted inside
+    their file, case changed, files gzipped and the sample lines of the list permuted."""
+    import gzip
+    res = Result()
+    k, rcmode, tr = desc['k'], desc['rc'], desc['tr']
+    rng = random.Random(desc['seed'])
+    ns = rng.randint(2, 4) if tr in ('sampleperm', 'all') else rng.randint(1, 3)
+    minc, minq = rng.choice([1, 2, 2, 3]), rng.choice([0, 10, 20])
+    rule = rng.choice(['no-filter', 'middle', 'strict'])
+    genome = G.rseq(rng, rng.randint(3 * k, 6 * k))
+    samples = []
+    for s_ in range(ns):
+        g = list(genome)
+        for _ in range(rng.randint(0, 2)):
+            g[rng.randrange(len(g))] = rng.choice('ACGT')
+        g = ''.join(g)
+        files = [[], []]
+        for r in range(rng.randint(8, 20)):
+            L = rng.randint(k, min(len(g), 3 * k))
+            a = rng.randrange(len(g) - L + 1)
+            t = g[a:a + L]
+            if rng.random() < 0.5:
+                t = M.rc(t)
+            q = ''.join(chr(33 + rng.choice([minq, max(0, minq - 1), minq + 1, 40, 40, 40])) for _ in range(L))
+            if rng.random() < 0.2:
+                q = chr(33 + max(0, minq - 1)) + q[1:]               # a low quality at the first base, i.e. in the first window
+            if rng.random() < 0.2:
+                h = (k - 1) // 2
+                q = q[:h] + chr(33 + max(0, minq - 1)) + q[h + 1:]   # ... and at the middle base of the first window
+            files[r % 2].append((t, q))
+        if rng.random() < 0.6 and s_ > 0:
+            # a stray read that other samples hold many times: below the count here, above it elsewhere
+            files[0].append((genome[:k + 3], chr(33 + 40) * (k + 3)))
+        samples.append(files)
+    tsamples = [[list(f) for f in smp] for smp in samples]
+    every = tr == 'all'
+    gz = tr == 'gzip' or every
+    perm = list(range(ns))
+    if (tr == 'rc' or every) and rcmode:
+        for smp in tsamples:
+            for f in smp:
+                for i in range(len(f)):
+                    if rng.random() < 0.6:
+                        f[i] = (M.rc(f[i][0]), f[i][1][::-1])
+    if tr == 'perm' or every:
+        for smp in tsamples:
+            for f in smp:
+                rng.shuffle(f)
+    if tr == 'case' or every:
+        tsamples = [[[(''.join(c.lower() if rng.random() < 0.5 else c for c in t), q) for (t, q) in f] for f in smp] for smp in tsamples]
+    if tr == 'sampleperm' or every:
+        rng.shuffle(perm)
+    res.count('tr:' + tr)
+    res.count('fastq_cases')
+
+    def put(name, recs, z):
+        txt = ''.join('@r%d\n%s\n+\n%s\n' % (i, t, q) for i, (t, q) in enumerate(recs))
+        if z:
+            with gzip.open(ctx.path(name + '.gz'), 'wt') as fh:
+                fh.write(txt)
+            return ctx.path(name + '.gz')
+        return ctx.write(name, txt)
+
+    base_lines = ['t%d\t%s\t%s\n' % (i, put('a%d_1.fastq' % i, smp[0], False), put('a%d_2.fastq' % i, smp[1], False)) for i, smp in enumerate(samples)]
+    t_lines = ['t%d\t%s\t%s\n' % (i, put('b%d_1.fastq' % i, smp[0], gz), put('b%d_2.fastq' % i, smp[1], gz)) for i, smp in enumerate(tsamples)]
+    ctx.write('alist', ''.join(base_lines))
+    ctx.write('blist', ''.join(t_lines[i] for i in perm))
+    extra = ['--min-count', minc, '--min-qual', minq, '--qual-filter', rule]
+    p1 = G.ska_build(ctx, ctx.path('fa'), ['-f', ctx.path('alist')], k, rcmode, extra=extra)
+    p2 = G.ska_build(ctx, ctx.path('fb'), ['-f', ctx.path('blist')], k, rcmode, extra=extra)
+    res.evals += 1
+    detail = {'k': k, 'rc': rcmode, 'tr': tr, 'min_count': minc, 'min_qual': minq, 'rule': rule, 'samples': samples, 'transformed': tsamples, 'perm': perm}
+    if p1.returncode != 0 or p2.returncode != 0:
+        if (p1.returncode != 0) != (p2.returncode != 0):
+            res.violate('C02:fastq:%s:one-fails' % tr, 'k=%d rc=%s reads, transformation %s: one build fails, the other succeeds' % (k, rcmode, tr), detail)
+        else:
+            res.count('both_refused')
+        return res
+    h1, t1 = G.nk(ctx, ctx.path('fa.skf'))
+    h2, t2 = G.nk(ctx, ctx.path('fb.skf'))
+    exp = {kk: [v[i] for i in perm] for kk, v in t1.items()}
+    if t2 != exp or h2.get('names') != ['t%d' % i for i in perm]:
+        diff = [(x, exp.get(x), t2.get(x)) for x in set(exp) | set(t2) if exp.get(x) != t2.get(x)]
+        res.violate('C02:fastq:%s:differs' % tr, 'k=%d rc=%s reads (min-count %d, %s, min-qual %d), transformation %s changes the table: %s'
+                    % (k, rcmode, minc, rule, minq, tr, diff[:3]), detail)
+    else:
+        res.count('rows_compared', len(t1))
+        if t1:
+            res.nontrivial.append(fingerprint([k, rcmode, 'fastq', desc['seed'], tr]))
+    return res
+
+
 def run_case(desc, ctx):
+    if desc['kind'] == 'fastq':
+        return run_fastq(desc, ctx)
     res = Result()
     k, rcmode, tr = desc['k'], desc['rc'], desc['tr']
     if desc['kind'] == 'many':
